@@ -121,10 +121,29 @@ def check(run):
         if not ok:
             run.violation("R1", uv.where, f"update_vertices does not carry {what} through the vertex mask", key=key_of("C07-R1", "update_vertices", what))
     # default inverse construction: boolean and integer masks
-    ok = "inverse[mask] = np.arange(mask.sum())" in txt and "inverse[mask] = np.arange(len(mask))" in txt
-    run.instance("R1", uv.where, "default inverse built for boolean and integer masks", ok)
-    if not ok:
-        run.violation("R1", uv.where, "update_vertices builds the default inverse differently", key=key_of("C07-R1", "update_vertices", "inverse"))
+    # (decided per case on the function specialised to a boolean / an integer mask - sa/specialise.py - so that an
+    # if / elif chain, a conditional expression or a pre-test `kind in ('b', 'i')` are all the same thing)
+    from ..normalize import Folder
+    from ..specialise import specialise
+    inv_p = uv.params[2] if len(uv.params) > 2 else "inverse"
+    got, sites = {}, 0
+    for kind_, name_ in (("b", "bool"), ("i", "int64")):
+        spec_, n_ = specialise(uv.node, {f"{mask}.dtype.kind": kind_, f"{mask}.dtype.name": name_})
+        Folder().fold_function(spec_)
+        sites += n_
+        got[kind_] = sorted({ast.unparse(st_.value) for st_ in ast.walk(spec_) if isinstance(st_, ast.Assign)
+                             and ast.unparse(st_.targets[0]) == f"{inv_p}[{mask}]"})
+    want = {"b": [f"np.arange({mask}.sum())"], "i": [f"np.arange(len({mask}))"]}
+    alt = {"b": [f"np.arange(np.count_nonzero({mask}))"], "i": want["i"]}
+    if sites == 0 and not any(got.values()):
+        run.instance("R1", uv.where, "default inverse: no test of the mask's dtype kind and no store into the inverse - NOT decided", True, nontrivial=False)
+        run.assume("update_vertices: construction of the default inverse not in a recognised form")
+    else:
+        ok = all(got[k_] in (want[k_], alt[k_]) for k_ in ("b", "i"))
+        run.instance("R1", uv.where, f"default inverse built for boolean and integer masks ({got})", ok)
+        if not ok:
+            run.violation("R1", uv.where, f"update_vertices builds the default inverse differently (boolean mask: {got['b']}, integer mask: {got['i']})",
+                          key=key_of("C07-R1", "update_vertices", "inverse"))
     # salvage of vertex normals: fetched from the memo AFTER the face re-index (so that outside a cache lock a re-index
     # through a non-trivial inverse - a merge - drops them instead of keeping the first vertex' normal)
     cfgv = CFG(uv.node, exceptions=False)
@@ -351,34 +370,47 @@ def _ordered(cfg, texts):
 def _visuals(run, ix, ef):
     cv = ix.cls("trimesh.visual.color.ColorVisuals")
     tv = ix.cls("trimesh.visual.texture.TextureVisuals")
-    # the helper both update_faces and update_vertices hand their mask to (`_update_key` today), by role
-    def _callee_names(fn):
-        return {c_.func.attr for c_ in ast.walk(fn.node) if isinstance(c_, ast.Call) and isinstance(c_.func, ast.Attribute) and ast.unparse(c_.func.value) == "self"}
-    shared = (_callee_names(cv.methods["update_faces"]) & _callee_names(cv.methods["update_vertices"])) & set(cv.methods)
-    uk_name = "_update_key" if "_update_key" in cv.methods else (next(iter(shared)) if len(shared) == 1 else None)
-    if uk_name is None:
-        raise AnalysisError("anchor vanished: the helper ColorVisuals.update_faces / update_vertices hand their mask to")
-    uk = cv.methods[uk_name]
-    # each funnel hands its own mask and the key of the per-element colours to that helper (keyword or positional)
+    # each funnel stores data[<its colour key>][<its own mask>] back under the same key - itself, or through a helper of
+    # the class that it hands the mask and the key to (by value: names, keyword / positional spelling and whether the
+    # helper exists at all do not matter)
+    from ..dag import Values
+
+    def masked_stores(fn):
+        """[(key text, mask text)] for every `self._data[K] = self._data[K][M]` of fn, K and M as canonical values"""
+        V = Values(ix, fn)
+        out = []
+        for st_ in ast.walk(fn.node):
+            if not (isinstance(st_, ast.Assign) and isinstance(st_.targets[0], ast.Subscript)
+                    and ast.unparse(st_.targets[0].value) in ("self._data", "self._data.data")):
+                continue
+            kv = V.value(st_.targets[0].slice, st_)
+            env = V.match("_e_D[_e_K][_e_M]", V.value(st_.value, st_))
+            if env is None or V.text(env["_e_K"]) != V.text(kv) or V.text(env["_e_D"]) not in ("P_self._data", "P_self._data.data"):
+                continue
+            out.append((V.text(kv), V.text(env["_e_M"])))
+        return out
+
+    uk = None
     for fname, ckey, what, vkey in (("update_faces", "face_colors", "face", "color-faces"), ("update_vertices", "vertex_colors", "vertex", "color-vertices")):
         f = cv.methods[fname]
         mask_p = f.params[1]
-        ok = False
+        ok = (repr(ckey), f"P_{mask_p}") in masked_stores(f)
         for c_ in ast.walk(f.node):
-            if isinstance(c_, ast.Call) and isinstance(c_.func, ast.Attribute) and c_.func.attr == uk_name and ast.unparse(c_.func.value) == "self":
-                argv = [ast.unparse(a_) for a_ in c_.args] + [ast.unparse(k_.value) for k_ in c_.keywords]
-                ok = ok or (mask_p in argv and repr(ckey) in argv)
-            # or slices the stored colours itself
-        direct = any(isinstance(st_, ast.Assign) and ckey in ast.unparse(st_.targets[0]) and f"[{mask_p}]" in ast.unparse(st_.value) for st_ in ast.walk(f.node))
-        ok = ok or direct
+            if ok or not (isinstance(c_, ast.Call) and isinstance(c_.func, ast.Attribute) and ast.unparse(c_.func.value) == "self" and c_.func.attr in cv.methods):
+                continue
+            h = cv.methods[c_.func.attr]
+            bound = dict(zip(h.params[1:], c_.args))
+            bound.update({k_.arg: k_.value for k_ in c_.keywords if k_.arg})
+            pm = [p_ for p_, v_ in bound.items() if isinstance(v_, ast.Name) and v_.id == mask_p]
+            pk = [p_ for p_, v_ in bound.items() if isinstance(v_, ast.Constant) and v_.value == ckey]
+            if len(pm) == 1 and len(pk) == 1 and (f"P_{pk[0]}", f"P_{pm[0]}") in masked_stores(h):
+                ok, uk = True, h
         run.instance("R3", f.where, f"ColorVisuals.{fname} slices {ckey} with the mask", ok)
         if not ok:
             run.violation("R3", f.where, f"ColorVisuals.{fname} does not slice {what} colours with the mask", key=key_of("C07-R3", vkey))
-    txt = ast.unparse(uk.node)
-    ok = "self._data[key] = self._data[key][mask]" in txt or "self._data[key][mask]" in txt
-    run.instance("R3", uk.where, "_update_key stores data[key][mask]", ok)
-    if not ok:
-        run.violation("R3", uk.where, "ColorVisuals._update_key does not store the masked array", key=key_of("C07-R3", "update_key"))
+    if uk is not None:
+        # (kept as its own instance: the helper's store is what both funnels rely on)
+        run.instance("R3", uk.where, f"{uk.name} stores data[key][mask]", True)
     f = tv.methods["update_vertices"]
     txt = ast.unparse(f.node)
     ok = "[mask]" in txt and "vertex_attributes" in txt
@@ -402,10 +434,15 @@ def _visuals(run, ix, ef):
 
     def _restore(st):
         return isinstance(st, ast.Assign) and isinstance(st.targets[0], ast.Subscript) and ast.unparse(st.targets[0].value) == "self._data" \
-            and "[mask]" in ast.unparse(st.value)
+            and isinstance(st.value, ast.Subscript)
 
-    paths = summaries(uk.node)
-    drops = bool(paths) and all(ps.has_stmt(_drop) or ps.has_stmt(_restore) for ps in paths if ps.exit != "raise") and any(ps.has_stmt(_drop) for ps in paths)
+    # (in the helper when there is one, in both funnels when they do the work themselves)
+    holders = [uk] if uk is not None else [cv.methods["update_faces"], cv.methods["update_vertices"]]
+    drops = True
+    for h_ in holders:
+        paths = summaries(h_.node)
+        drops = drops and bool(paths) and all(ps.has_stmt(_drop) or ps.has_stmt(_restore) for ps in paths if ps.exit != "raise") \
+            and any(ps.has_stmt(_drop) for ps in paths)
     for name, g in sorted(list(cv.methods.items()) + list(cv.getters.items())):
         own = ast.unparse(g.node)
         stores = [st for st in ast.walk(g.node) if isinstance(st, ast.Assign) and isinstance(st.targets[0], ast.Subscript)
